@@ -337,12 +337,18 @@ impl Version {
     #[doc = include_str!("../examples/parse.rs")]
     /// ```
     pub fn parse<S: AsRef<str>>(input: S) -> Result<Version, SemverError> {
-        let mut input = input.as_ref();
+        let original = input.as_ref();
+        let mut input = original;
 
         if input.len() > MAX_LENGTH {
+            // point at the first character that does not fit any more
+            let offset = (0..=MAX_LENGTH)
+                .rev()
+                .find(|&i| input.is_char_boundary(i))
+                .unwrap_or(0);
             return Err(SemverError {
                 input: input.into(),
-                span: (input.len() - 1, 0).into(),
+                span: (offset, 0).into(),
                 kind: SemverErrorKind::MaxLengthError,
             });
         }
@@ -350,9 +356,10 @@ impl Version {
         match version.parse_next(&mut input) {
             Ok(arg) => Ok(arg),
             Err(err) => Err(match err {
+                // `input` has been advanced by the parser: report against the original text
                 ErrMode::Backtrack(e) | ErrMode::Cut(e) => SemverError {
-                    input: input.into(),
-                    span: (e.input.as_ptr() as usize - input.as_ptr() as usize, 0).into(),
+                    input: original.into(),
+                    span: (e.input.as_ptr() as usize - original.as_ptr() as usize, 0).into(),
                     kind: if let Some(kind) = e.kind {
                         kind
                     } else if let Some(ctx) = e.context {
@@ -362,8 +369,8 @@ impl Version {
                     },
                 },
                 ErrMode::Incomplete(_) => SemverError {
-                    input: input.into(),
-                    span: (input.len() - 1, 0).into(),
+                    input: original.into(),
+                    span: (original.len(), 0).into(),
                     kind: SemverErrorKind::IncompleteInput,
                 },
             }),
